@@ -8,7 +8,7 @@ import numpy as np
 
 from .. import alg
 from ..alg import E, lift, ZERO, ONE, Sqrt, const
-from ..interp import Interp
+from ..interp import Interp, RaiseSig
 from ..values import symarr, mkarr, full
 from .common import ident, ident_arr, public, defloc, sym_matrix, coeff, call_public, short
 
@@ -107,7 +107,13 @@ def run(ctx):
             dg = [next(iter(alg.atoms_of(R[i, i]))) for i in range(3)]
             return [{a: lift(s_) for a, s_ in zip(dg, sg) if a not in sub} for sg in ((1, 1, 1), (1, -1, -1), (-1, 1, -1), (-1, -1, 1))]
         return [{}]
-    Tr = call_public(ctx, I, T + "rotate", G.copy(), R.copy(), __cases__=rotation_cases)
+    try:
+        Tr = call_public(ctx, I, T + "rotate", G.copy(), R.copy(), __cases__=rotation_cases)
+    except Exception as ex:
+        if type(ex).__name__ not in ("Unsupported", "AlgError"):
+            raise
+        Tr = None
+        ctx.ob("C11.rotate", "rotate on a generic rotation", "inconclusive", f"outside the interpreted subset: {str(ex)[:120]}", locr)
     refT = np.empty((3, 3, 3, 3), dtype=object)
     for i, j, k, l in itertools.product(range(3), repeat=4):
         ref = ZERO
@@ -116,8 +122,42 @@ def run(ctx):
             for c, d in itertools.product(range(3), repeat=2):
                 ref = ref + rab * R[k, c] * R[l, d] * G[a, b, c, d]
         refT[i, j, k, l] = ref
-        ident(ctx, "C11.rotate", f"rotate[{i},{j},{k},{l}]", Tr[i, j, k, l], ref, locr)
-    ctx.floor("C11.rotate", 81)
+        if Tr is not None:
+            ident(ctx, "C11.rotate", f"rotate[{i},{j},{k},{l}]", Tr[i, j, k, l], ref, locr)
+    if Tr is not None:
+        ctx.floor("C11.rotate", 81)
+    # the same law on the rotations with exact zeros: the proper signed permutation matrices (the 24 rotations of the cube; a finite table).
+    # A rotation matrix with zeros decides every zero test a "skip the zero terms" implementation makes, which generic symbols cannot.
+    ctx.rule("C11.rotate-sparse", "rotate(T, P) == the transformation law for the proper signed permutation matrices P (cyclic relabellings, quarter and half turns) on generic T")
+    cube = []
+    for perm in itertools.permutations(range(3)):
+        for sg in itertools.product((1, -1), repeat=3):
+            M = np.zeros((3, 3), dtype=int)
+            for r_, c_ in enumerate(perm):
+                M[r_, c_] = sg[r_]
+            if round(np.linalg.det(M)) == 1:
+                cube.append(M)
+    chosen = cube if ctx.tier != "quick" else [M for M in cube if (M != M.T).any()][:6] + [M for M in cube if (M == M.T).all()][:2]
+    for M in chosen:
+        name = "[" + " ".join("".join({1: "+", -1: "-", 0: "0"}[int(v)] for v in row) for row in M) + "]"
+        Pm = np.array([[lift(int(v)) for v in row] for row in M], dtype=object)
+        try:
+            got = I.call(public(ctx, I, T + "rotate"), (G.copy(), Pm.copy()))
+        except RaiseSig as r:
+            ctx.ob("C11.rotate-sparse", name, False, f"raises {r.exc.typename}", locr)
+            continue
+        except Exception as ex:
+            if type(ex).__name__ not in ("Unsupported", "AlgError"):
+                raise
+            ctx.ob("C11.rotate-sparse", name, "inconclusive", f"outside the interpreted subset: {str(ex)[:100]}", locr)
+            continue
+        refP = np.empty((3, 3, 3, 3), dtype=object)
+        src = [int(np.nonzero(M[i])[0][0]) for i in range(3)]
+        sgn = [int(M[i, src[i]]) for i in range(3)]
+        for i, j, k, l in itertools.product(range(3), repeat=4):
+            refP[i, j, k, l] = (sgn[i] * sgn[j] * sgn[k] * sgn[l]) * G[src[i], src[j], src[k], src[l]]
+        ident_arr(ctx, "C11.rotate-sparse", name, got, refP, locr, what="rotated tensor")
+    ctx.floor("C11.rotate-sparse", 8)
 
     # ---- projectors
     ctx.rule("C11.proj", "each symmetry projector is linear, idempotent, self-adjoint (orthogonal projection), and the four are nested")
@@ -187,5 +227,6 @@ def run(ctx):
     ctx.assume("numpy.linalg.svd returns U, S, Vh with UᵀU = VhVhᵀ = I, S ≥ 0 and M = U·diag(S)·Vh; inv(P)·P = I (library facts)")
     ctx.count("interp_calls", I.counters["calls"])
     ctx.count("interp_stmts", I.counters["stmts"])
-    ctx.sample({"rule": "C11.rotate", "construct": "rotate[0,1,2,0]", "extracted_terms": Tr[0, 1, 2, 0].nterms() if isinstance(Tr[0, 1, 2, 0], E) else None})
+    if Tr is not None:
+        ctx.sample({"rule": "C11.rotate", "construct": "rotate[0,1,2,0]", "extracted_terms": Tr[0, 1, 2, 0].nterms() if isinstance(Tr[0, 1, 2, 0], E) else None})
     ctx.sample({"rule": "C11.isometry", "lhs": short(nv, 200)})
